@@ -1,11 +1,11 @@
 """C19 — environment instances are independent of each other.
 
 Two environments A and B each run the operation list
-    [construct, reset, step a1, step a2, read, reset, step a3, read]
+    [construct, reset, step a1, step a2, step a3, read, reset, step a1, read]
 (`construct` includes building the Scenario: loading the YAML / generating / from a dict; `read` decodes the
 current state and last observation through the public readable decoders and queries mask / goal / hop count /
 score bound).  ALL interleavings of the two lists that keep each list's own order are enumerated up to a
-*switch bound* (number of alternations between A and B; quick: 2, thorough: unbounded = C(16,8) = 12870).
+*switch bound* (number of alternations between A and B; quick: 3, thorough: 5 switches).
 Draws are scripted per step.  Oracle: each environment's observable trace in the interleaved run equals its
 trace when it is the ONLY environment of a fresh interpreter.
 """
@@ -32,7 +32,7 @@ RULE = ("pairs of scenarios (same scenario twice; equal layout / different conte
         "all order-preserving interleavings of two 8-operation programs within the switch bound; "
         "non-trivial = interleaving with >= 1 switch between the two environments")
 
-PROGRAM = ["construct", "reset", "step0", "step1", "read", "reset", "step2", "read"]
+PROGRAM = ["construct", "reset", "step0", "step1", "step2", "read", "reset", "step0", "read"]
 
 
 # ------------------------------------------------------------------------------------------- env descriptors
@@ -322,7 +322,7 @@ def _pair_job(args):
 def run(pid, tier):
     t0 = time.time()
     import_nasim()
-    max_sw = 3 if tier == "quick" else None
+    max_sw = 3 if tier == "quick" else 5
     scheds = interleavings(len(PROGRAM), max_sw)
     if tier == "thorough":
         pass
